@@ -17,21 +17,30 @@ Print Assumptions C10_infeasible.
    of the bracketing solver): a flow is returned only as (a) a root the secant search reports as converged, at or
    right of the minimum-friction flow, or (b) the bracketing solver's answer, asked only when (a) failed and the system
    head is above the pump head at the largest flow, and accepted only when it converged and the heads at it agree to
-   1e-6 relative; otherwise OperatingPointError; ValueError exactly when the two starting flows coincide; an
-   IndexError escapes only from the evaluation at the largest tabulated flow (one raised inside the secant search is
-   swallowed: no foreign exception from a search that wandered off). *)
+   1e-6 relative; otherwise OperatingPointError.  scipy's ValueError ("x1 and x0 must be different") cannot occur over
+   the reals: the two starting flows coincide only when the minimum-friction flow is the largest flow, which is
+   answered with OperatingPointError (C10_at_end).  An IndexError escapes only from the evaluation at the largest
+   tabulated flow (one raised inside the secant search is swallowed: no foreign exception from a search that wandered
+   off). *)
 Theorem C10_outcomes : forall (gap : R -> R) (raises : R -> bool) (qimin qlast hsys hpump : R) (bc : bool) (br hs hp : R),
   let x1 := (qimin + qlast) / 2 in
   let fop := find_operating_point RN gap raises qimin qlast hsys hpump bc br hs hp in
-  (exists r vis, fop = (Ok r, vis) /\ hsys <= hpump /\
+  (exists r vis, fop = (Ok r, vis) /\ hsys <= hpump /\ qimin < qlast /\
      ((qimin <= r /\ secant RN gap raises qimin x1 = (Some (r, true), vis)) \/
       (r = br /\ accepted RN qimin (fst (secant RN gap raises qimin x1)) = None /\ raises qlast = false /\ 0 < gap qlast /\ bc = true /\
        Rabs (hs - hp) <= 1 / 1000000 * Rmax (Rabs hs) (Rabs hp)))) \/
   (exists vis, fop = (OperatingPointError, vis)) \/
-  (fop = (ValueError, []) /\ x1 = qimin) \/
   (exists vis, fop = (IndexErr, vis) /\ raises qlast = true).
 Proof. exact LC10.outcomes. Qed.
 Print Assumptions C10_outcomes.
+
+(* the minimum-friction flow at the largest tabulated flow: OperatingPointError (before the repair 73268bd scipy's
+   ValueError escaped here) *)
+Theorem C10_at_end : forall (gap : R -> R) (raises : R -> bool) (qimin qlast hsys hpump : R) (bc : bool) (br hs hp : R),
+  qlast <= qimin -> hsys <= hpump ->
+  find_operating_point RN gap raises qimin qlast hsys hpump bc br hs hp = (OperatingPointError, []).
+Proof. exact LC10.at_end. Qed.
+Print Assumptions C10_at_end.
 
 (* the landing clause (was: searched only; a theorem after the repair): pump head at least system head at the
    minimum-friction flow, system head above pump head at the largest tabulated flow, and a bracketing solver that
@@ -40,7 +49,7 @@ Print Assumptions C10_outcomes.
    qimin, or else the bracketed one.  That the bracketing solver (scipy, an oracle) answers inside its bracket at a
    sign change is assumed, not proved. *)
 Theorem C10_lands : forall (gap : R -> R) (raises : R -> bool) (qimin qlast hsys hpump br hs hp : R),
-  hsys <= hpump -> (qimin + qlast) / 2 <> qimin -> raises qlast = false -> 0 < gap qlast ->
+  hsys <= hpump -> qimin < qlast -> raises qlast = false -> 0 < gap qlast ->
   Rabs (hs - hp) <= 1 / 1000000 * Rmax (Rabs hs) (Rabs hp) ->
   exists r vis, find_operating_point RN gap raises qimin qlast hsys hpump true br hs hp = (Ok r, vis) /\
     (r = br \/ (qimin <= r /\ secant RN gap raises qimin ((qimin + qlast) / 2) = (Some (r, true), vis))).
